@@ -21,7 +21,7 @@ ASSUMPTIONS = ["liveness is restated as bounded progress; a watchdog timeout wit
 FLOORS = {"timer_evaluations": {"quick": 1500, "thorough": 30000}, "requests_honoured": {"quick": 1200, "thorough": 25000},
           "stops_checked": {"quick": 40, "thorough": 800}, "stops_while_waiting": {"quick": 15, "thorough": 300},
           "due_alarms": {"quick": 30, "thorough": 500}, "lagging_runs": {"quick": 20, "thorough": 400},
-          "pushes_while_waiting_checked": {"quick": 300, "thorough": 5000}, "idle_stops_checked": {"quick": 8, "thorough": 150}}
+          "pushes_while_waiting_checked": {"quick": 300, "thorough": 5000}, "idle_stops_checked": {"quick": 8, "thorough": 150}, "lagging_bursts_of_1024_steps": {"quick": 5, "thorough": 100}}
 
 
 def gen(rng, k, seed):
@@ -41,6 +41,15 @@ def gen(rng, k, seed):
         kv["stop"] = f"afterms:{rng.choice([0, 1, 3, 8, 25])}:{rng.randrange(0, 1000)}"
     else:
         kv["stop"] = "none"
+    if rng.random() < 0.08:
+        # a lagging run (its whole window lies in the past) that first works through a long burst of consecutive smallest-step
+        # cycles and then still owes timers that fall due before the end time: late, never dropped
+        n = rng.choice([600, 1000, 1023, 1024])      # (longer bursts are the run the property allows to be cut short)
+        kv.update(timers=f"chain:1:{n};rel:{rng.choice([5000, 9000])};abs:{rng.choice([12000, 15000])};chain:1000:5",
+                  end_ms=20, start_past_ms=rng.choice([30, 100]), stop="none")
+        kv.pop("delays", None)
+        kv["lag_burst"] = 1
+        return Scenario(f"c17_{seed}_{k}", kv)
     if rng.random() < 0.15:
         # a long, mostly idle run stopped early: the only thing that can end it in time is the stop request itself
         kv.update(timers=f"rel:{rng.choice([100, 900])}", end_ms=4000, stop=f"afterms:{rng.choice([5, 20, 60])}:{rng.randrange(0, 1000)}")
@@ -158,6 +167,7 @@ def check(sc, tr, rc):
     C["requests_honoured"] = honoured
     C["due_alarms"] = due_alarms
     C["lagging_runs"] = 1 if past_us > 0 and T else 0
+    C["lagging_bursts_of_1024_steps"] = 1 if kv.get("lag_burst") else 0
     # stop: at most one further cycle begins after request_stop() returned, and run() returns
     if tr.stop and tr.stop[0] < tr.run[0]:
         # on a loaded machine the controller thread can call request_stop() before the main thread has entered run(): the
